@@ -147,7 +147,7 @@ impl<'a> Gen<'a> {
             8 => Value::Float(Some(t as f32 + 0.5)),
             9 => Value::Double(Some(t as f64 + 0.25)),
             10 => Value::Bytes(Some(Box::new(vec![(t % 256) as u8, 0, 39, 92]))),
-            11 => Value::Char(Some(*self.rng.pick(&['a', '\'', 'é', '?']))),
+            11 => Value::Char(Some(*self.rng.pick(&['a', '\'', 'é', '?', '\\', '\n', '"', '\t', '𝄞']))),
             12 => Value::Json(Some(Box::new(serde_json::json!({"t": t, "q": "?'$1"})))),
             13 => Value::String(None),
             14 => Value::Int(None),
@@ -213,7 +213,13 @@ impl<'a> Gen<'a> {
                     X::Bin(b(l), op, b(r))
                 }
                 2 => X::Func("ABS", vec![self.scalar(scope, K::I, depth - 1)]),
-                3 => X::Func("COALESCE", vec![self.scalar(scope, K::I, depth - 1), self.int_val()]),
+                3 => {
+                    let mut args = vec![self.scalar(scope, K::I, depth - 1), self.int_val()];
+                    if self.rng.chance(1, 3) {
+                        args.insert(1, self.scalar(scope, K::I, depth - 1));
+                    }
+                    X::Func("COALESCE", args)
+                }
                 4 => X::Func("IFNULL", vec![self.scalar(scope, K::I, depth - 1), self.int_val()]),
                 5 => X::Func("CHAR_LENGTH", vec![self.scalar(scope, K::T, depth - 1)]),
                 6 => {
@@ -474,6 +480,22 @@ impl<'a> Gen<'a> {
             s.wheres.push(w);
         }
         let grouped = self.rng.chance(1, 4);
+        if !grouped && self.rng.chance(1, 12) {
+            // aggregates over the whole result, optionally filtered by HAVING without GROUP BY
+            let na = 1 + self.rng.below(2);
+            for _ in 0..na {
+                let agg = self.aggregate(&scope);
+                let a = self.fresh("o");
+                s.items.push(Item { expr: agg, alias: Some(a.clone()), window: None });
+                s.out.push(a);
+            }
+            if self.rng.chance(2, 3) {
+                let agg = self.aggregate(&scope);
+                let v = self.int_val();
+                s.havings.push(X::Bin(b(agg), *self.rng.pick(&[BinOper::GreaterThan, BinOper::SmallerThanOrEqual, BinOper::NotEqual]), b(v)));
+            }
+            return s;
+        }
         if grouped {
             let ng = 1 + self.rng.below(2);
             for _ in 0..ng {
